@@ -5,13 +5,15 @@ import Acra.Drv.Search
 import Acra.Drv.Mpeg
 import Acra.Drv.Ch10
 import Acra.Drv.Net
+import Acra.Drv.Golay7
 namespace Acra.Drv
 def allCodecs : List Codec := List.flatten [
   ftiCodecs,
   fti2Codecs,
   Mpeg.mpegCodecs,
   ch10Codecs,
-  NetC.netCodecs
+  NetC.netCodecs,
+  golay7Codecs
 ]
 def allFuncs : List Func := List.flatten [
   ftiFuncs,
@@ -20,6 +22,7 @@ def allFuncs : List Func := List.flatten [
   searchFuncs,
   Mpeg.mpegFuncs,
   ch10Funcs,
-  NetC.netFuncs
+  NetC.netFuncs,
+  golay7Funcs
 ]
 end Acra.Drv
